@@ -266,3 +266,121 @@ fn main() {
 
 def all_programs():
     return dict(PROGS)
+
+
+# ------------------------------------------------------------------------------------------------
+# threshold arrays: objects whose byte size is exactly at, one or two words below and above every size
+# threshold of the allocators and collectors (TLAB object limit, large-object limit, page size), read from
+# the current sources
+
+def thresholds(repo="/repo"):
+    import os
+    import re
+    vals = {}
+    K = 1024
+    for rel, names in (("dora-compiler/src/abi.rs", ("LARGE_OBJECT_SIZE", "MAX_TLAB_OBJECT_SIZE")),
+                       ("dora-runtime/src/gc/tlab.rs", ("MIN_TLAB_SIZE", "MAX_TLAB_SIZE")),
+                       ("dora-runtime/src/gc/swiper.rs", ("PAGE_SIZE",))):
+        try:
+            text = open(os.path.join(repo, rel)).read()
+        except OSError:
+            continue
+        for n in names:
+            m = re.search(r"const %s: usize = (\d+)\s*(\*\s*K)?\s*;" % n, text)
+            if m:
+                vals[n] = int(m.group(1)) * (K if m.group(2) else 1)
+    out = sorted(set(vals.values()) | {8 * K, 32 * K, 64 * K})
+    return out, vals
+
+
+def threshold_program(repo="/repo"):
+    """returns (source, expected stdout).  Array object = 16 bytes header+length, then the elements."""
+    ts, _ = thresholds(repo)
+    lens = []
+    for t in ts:
+        for d in (-2, -1, 0, 1, 2):
+            n = (t - 16) // 8 + d
+            if n > 4 and n not in lens:
+                lens.append(n)
+    lens.sort()
+    src = r"""
+use std::string::Stringable;
+class Box { v: Int64 }
+fn refs(n: Int64): Int64 {
+  let a = Array[Option[Box]]::fill(n, None[Box]);
+  a(0) = Some[Box](Box(v = n));
+  a(n / 2) = Some[Box](Box(v = n + 1));
+  a(n - 1) = Some[Box](Box(v = n + 2));
+  std::force_minor_collect();
+  let mut s = a(0).get_or_panic().v + a(n / 2).get_or_panic().v * 3 + a(n - 1).get_or_panic().v * 5;
+  std::force_minor_collect();
+  std::force_minor_collect();
+  // the array is old (or in the large-object space) now: stores of young objects need the barrier
+  a(0) = Some[Box](Box(v = n + 10));
+  a(n - 1) = Some[Box](Box(v = n + 12));
+  a(n / 2) = Some[Box](Box(v = n + 11));
+  a(1) = Some[Box](Box(v = 7));
+  std::force_minor_collect();
+  s = s * 7 + a(0).get_or_panic().v + a(n / 2).get_or_panic().v * 3 + a(n - 1).get_or_panic().v * 5 + a(1).get_or_panic().v;
+  std::force_collect();
+  a(n - 2) = Some[Box](Box(v = 9));
+  std::force_minor_collect();
+  s = s * 7 + a(0).get_or_panic().v + a(n / 2).get_or_panic().v * 3 + a(n - 1).get_or_panic().v * 5 + a(n - 2).get_or_panic().v;
+  let mut holes = 0;
+  let mut i = 0;
+  while i < n { if a(i).is_none() { holes = holes + 1; } i = i + 1; }
+  s * 11 + holes
+}
+fn ints(n: Int64): Int64 {
+  let a = Array[Int64]::zero(n);
+  let mut i = 0;
+  while i < n { a(i) = i * 3 + n; i = i + 1; }
+  let witness = Box(v = n);
+  std::force_minor_collect();
+  std::force_minor_collect();
+  std::force_collect();
+  let mut s = witness.v;
+  i = 0;
+  while i < n { s = (s * 31 + a(i)) % 1000000007; i = i + 1; }
+  s
+}
+fn bytes(n: Int64): Int64 {
+  let a = Array[UInt8]::zero(n);
+  let mut i = 0;
+  while i < n { a(i) = (i % 251).to_uint8(); i = i + 1; }
+  let witness = Box(v = n);
+  std::force_minor_collect();
+  std::force_collect();
+  let mut s = witness.v;
+  i = 0;
+  while i < n { s = (s * 31 + a(i).to_int64()) % 1000000007; i = i + 1; }
+  s
+}
+fn main() {
+  let lens = Array[Int64]::new(@LENS@);
+  for n in lens {
+    println("${n} ${refs(n)} ${ints(n)} ${bytes(n * 8)} ${bytes(n * 8 - 3)}");
+  }
+}
+""".replace("@LENS@", ", ".join(str(n) for n in lens))
+
+    def refs(n):
+        s = n + (n + 1) * 3 + (n + 2) * 5
+        s = s * 7 + (n + 10) + (n + 11) * 3 + (n + 12) * 5 + 7
+        s = s * 7 + (n + 10) + (n + 11) * 3 + (n + 12) * 5 + 9
+        holes = n - len({0, n // 2, n - 1, 1, n - 2})
+        return s * 11 + holes
+
+    def ints(n):
+        s = n
+        for i in range(n):
+            s = (s * 31 + i * 3 + n) % 1000000007
+        return s
+
+    def byts(n):
+        s = n
+        for i in range(n):
+            s = (s * 31 + i % 251) % 1000000007
+        return s
+    exp = "".join("%d %d %d %d %d\n" % (n, refs(n), ints(n), byts(n * 8), byts(n * 8 - 3)) for n in lens)
+    return src, exp, lens
